@@ -119,8 +119,12 @@ def run_check(mod, tier, seed, workers=None, only_case=None):
     sample_idx = sorted(set([0, n // 2, n - 1] + [rnd.randrange(n) for _ in range(2)])) if n else []
     # shard: round-robin chunks, order permuted by seed (the SET of cases is seed independent)
     csize = max(1, min(getattr(mod, 'CHUNK', 200), (n + workers * 4 - 1) // (workers * 4)))
-    chunks = [indexed[i:i + csize] for i in range(0, n, csize)]
+    heavy = getattr(mod, 'heavy', None)
+    light = [ic for ic in indexed if not (heavy and heavy(ic[1]))]
+    chunks = [light[i:i + csize] for i in range(0, len(light), csize)]
     rnd.shuffle(chunks)
+    # heavy cases (whole schedule explorations) are their own chunks and start first
+    chunks = [[ic] for ic in indexed if heavy and heavy(ic[1])] + chunks
     results_iter = None
     pool = None
     if workers > 1 and n > 1:
@@ -212,7 +216,7 @@ def finish(ctx, cases, wall, replay_mode=False):
         'distinct_nontrivial': len(ctx.nontrivial),
         'rule': mod.RULE,
         'samples': ctx.samples or [{'case': cases[0]}] if cases else [],
-        'states': max(1, len(ctx.states) if ctx.states else len(ctx.obs)),
+        'states': max(1, len(ctx.states | ctx.obs) if ctx.states else len(ctx.obs)),
         'transitions': max(1, ctx.transitions),
         'traces_validated_against_impl': ctx.evaluations,
         'distinct_outcomes': len(ctx.obs),
